@@ -121,7 +121,10 @@ CLAIMED = {
         "deadlock; without backpressure the bounds must fail. Real chain runs with a pausing consumer are validated step by step "
         "against that model (PipelineTrace.tla). Pipeline level: real pipelines (4 topologies x lazy/eager x capacities x pause points) run under the deterministic "
         "scheduler with a consumer that stops pulling; at quiescence source computations for N vs 2N chunks, len(_mailbox) "
-        "after every step and the demand predicate at every source advance are recorded and judged by TLC (BackpressureObs.tla).",
+        "after every step and the demand predicate at every source advance are recorded and judged by TLC (BackpressureObs.tla). For a graph that is not a chain, spec/LagNet.tla (the diamond with a branch that holds back Lag chunks, batch-grabbing "
+        "readers as in Mailbox._read) is run with a consumer that stops: TLC collects the largest number of source chunks over all "
+        "schedules, checks that it is the same for N and 2 N chunks, and no real run of that diamond under the deterministic scheduler may "
+        "compute more source chunks than that.",
    note="Pipeline schedules are sampled (seeded); quiescence = no enabled thread under the scheduler; timeouts never fire.",
    technique="TLA+ model checking (Mailbox.tla: CapInv, LazyDemand; Pipeline.tla: EagerCap, LazyDemand, PauseBound) with counterexample replay + TLC trace validation of real pausing chain runs + scheduler-driven pipeline runs judged by TLC",
    design="4/C13"),
